@@ -308,7 +308,7 @@ func reflectTraceRun(c *Ctx, histories, length int, inScope func(what, op string
 						start--
 					}
 					c.R.Violate(fmt.Sprintf("trace:%s:%s", v.What, v.Op), fmt.Sprintf("type=%s history step %d: %s", t.Name, v.L, trunc(ev, 500)),
-						map[string]any{"engine": "trace_reflect", "type": t.Name, "event": json.RawMessage(trunc(ev, 4000))})
+						map[string]any{"engine": "trace_reflect", "type": t.Name, "event": trunc(ev, 4000)})
 				}
 			}
 			if !done {
